@@ -3,8 +3,27 @@ import Aplang.Model.State
 # File-system model  (src: standard_library/file_system.rs over `std::fs` on Linux)
 
 A tree below a sandbox root: association list from component paths to nodes; the root (empty
-path) always exists and is a directory. Path strings are relative, split at `/`; empty components
-and `.` are dropped; `..`, absolute paths, symlinks and permissions are outside the model.
+path) always exists and is a directory. Path strings are split at `/`; empty components and `.`
+are dropped (so an absolute path string is read from the root as well: its leading empty component
+is dropped).
+
+`..` is resolved as the kernel does it (`resolve`): the components are walked from left to right
+starting at the root; a normal component descends (whether or not the name exists: what is missing
+is found out by the operation at the end); `..` goes to the parent of the directory reached so far,
+and it is valid only if everything before it names an existing **directory** (Linux: `ENOENT` for
+`missing/../x`, `ENOTDIR` for `file/../x`). An operation on a path string that does not resolve
+fails by value and leaves the tree as it was. A path string whose last component is `..` can only
+name a directory (`dirOnly`), exactly like one with a trailing `/`.
+
+The one deliberate simplification: `..` at the root stays at the root (Linux: `/..` = `/`). For the
+real root that is what Linux does; for the *sandbox* root it is not (the parent of the sandbox
+directory is a different directory). The harness never generates paths that climb above the sandbox
+root.
+
+Symlinks and permissions are outside the model.
+
+For a path string without a `..` component every operation below is what it was before `..` was
+brought into the model (`Aplang.Fs.Lexical`, `*_eq_lexical` in Proofs/FsLemmas.lean).
 -/
 namespace Aplang.Fs
 
@@ -19,6 +38,7 @@ def splitSlash : Str → List Str
       | [] => [[c]]
       | h :: t => (c :: h) :: t
 
+/-- the components of a path string: empty ones and `.` dropped, `..` kept -/
 def components (s : Str) : Path := (splitSlash s).filter (fun c => c != [] && c != ['.'])
 
 def find? (t : Tree) (p : Path) : Option FsNode :=
@@ -33,87 +53,187 @@ def parent (p : Path) : Path := p.dropLast
 def put (t : Tree) (p : Path) (n : FsNode) : Tree := (p, n) :: List.filter (fun e => e.1 != p) t
 def erase (t : Tree) (p : Path) : Tree := List.filter (fun e => e.1 != p) t
 def eraseUnder (t : Tree) (p : Path) : Tree := List.filter (fun e => !(p.isPrefixOf e.1)) t
+/-- everything strictly below `p` goes, `p` itself stays -/
+def eraseBelow (t : Tree) (p : Path) : Tree :=
+  List.filter (fun e => (e.1 == p && e.1 != []) || !(p.isPrefixOf e.1)) t
 def children (t : Tree) (p : Path) : List Path :=
   (List.filter (fun e => e.1 != [] && parent e.1 == p) t).map (·.1)
+
+/-! ## `..` -/
+
+def dotdot : Str := ['.', '.']
+
+/-- no component of the path string is `..` -/
+def noDotDot (s : Str) : Bool := !(components s).contains dotdot
+
+/-- the last component of the path string is `..` -/
+def endsDotDot (s : Str) : Bool := (components s).getLast? == some dotdot
+
+/-- the walk of the kernel over the components `cs`, standing at the directory `cur`: a normal
+component descends; `..` needs `cur` to be an existing directory and goes to its parent (the root is
+its own parent) -/
+def resolveFrom (t : Tree) : Path → List Str → Option Path
+  | cur, [] => some cur
+  | cur, c :: cs =>
+    if c == dotdot then (if isDir t cur then resolveFrom t (parent cur) cs else none)
+    else resolveFrom t (cur ++ [c]) cs
+
+/-- the component path a path string names in the tree `t`; `none`: some `..` is taken from
+something that is not an existing directory -/
+def resolve (t : Tree) (s : Str) : Option Path := resolveFrom t [] (components s)
 
 /-- a trailing `/` demands a directory: `f/` never names a file -/
 def trailingSlash (s : Str) : Bool := s.getLast? == some '/'
 
-/-- `PATH_EXISTS` etc. on the raw string: the empty string names nothing -/
-def existsS (t : Tree) (s : Str) : Bool :=
-  s != [] && (if trailingSlash s then isDir t (components s) else pathExists t (components s))
-def isFileS (t : Tree) (s : Str) : Bool := s != [] && !trailingSlash s && isFile t (components s)
-def isDirS (t : Tree) (s : Str) : Bool := s != [] && isDir t (components s)
+/-- the path string can only name a directory: it ends in `/`, or its last component is `..`
+(Linux: `EISDIR` for `open(O_CREAT)` and `unlink` of such a path, whatever it resolves to) -/
+def dirOnly (s : Str) : Bool := trailingSlash s || endsDotDot s
 
-/-- `File::create_new` -/
-def fileCreate (t : Tree) (s : Str) : Tree × Bool :=
-  let p := components s
-  if s == [] || trailingSlash s || p == [] || pathExists t p || !isDir t (parent p) then (t, false)
+/-! ## the operations at a resolved path
+
+`s` is the path string as written (for what only the spelling decides), `p` the path it resolves to. -/
+
+def existsAt (t : Tree) (s : Str) (p : Path) : Bool :=
+  s != [] && (if dirOnly s then isDir t p else pathExists t p)
+def isFileAt (t : Tree) (s : Str) (p : Path) : Bool := s != [] && !dirOnly s && isFile t p
+def isDirAt (t : Tree) (s : Str) (p : Path) : Bool := s != [] && isDir t p
+
+def fileCreateAt (t : Tree) (s : Str) (p : Path) : Tree × Bool :=
+  if s == [] || dirOnly s || p == [] || pathExists t p || !isDir t (parent p) then (t, false)
   else (put t p (.file []), true)
 
-/-- `remove_file` -/
-def fileRemove (t : Tree) (s : Str) : Tree × Bool :=
-  let p := components s
-  if s != [] && !trailingSlash s && isFile t p then (erase t p, true) else (t, false)
+def fileRemoveAt (t : Tree) (s : Str) (p : Path) : Tree × Bool :=
+  if s != [] && !dirOnly s && isFile t p then (erase t p, true) else (t, false)
 
-/-- `read_to_string` -/
-def fileRead (t : Tree) (s : Str) : Option Str :=
-  if s == [] || trailingSlash s then none else
-  match find? t (components s) with
+def fileReadAt (t : Tree) (s : Str) (p : Path) : Option Str :=
+  if s == [] || dirOnly s then none else
+  match find? t p with
   | some (.file c) => some c
   | _ => none
 
-/-- `OpenOptions::append(true).open` + `write!` -/
-def fileAppend (t : Tree) (s : Str) (text : Str) : Tree × Bool :=
-  let p := components s
-  if s == [] || trailingSlash s then (t, false) else
+def fileAppendAt (t : Tree) (s : Str) (p : Path) (text : Str) : Tree × Bool :=
+  if s == [] || dirOnly s then (t, false) else
   match find? t p with
   | some (.file c) => (put t p (.file (c ++ text)), true)
   | _ => (t, false)
 
-/-- `OpenOptions::write(true).truncate(true).open` + `write!` -/
-def fileOverwrite (t : Tree) (s : Str) (text : Str) : Tree × Bool :=
-  let p := components s
-  if s == [] || trailingSlash s then (t, false) else
+def fileOverwriteAt (t : Tree) (s : Str) (p : Path) (text : Str) : Tree × Bool :=
+  if s == [] || dirOnly s then (t, false) else
   match find? t p with
   | some (.file _) => (put t p (.file text), true)
   | _ => (t, false)
 
+/-- `mkdir("a/..")` is `EEXIST`: what `a/..` names exists -/
+def dirCreateAt (t : Tree) (s : Str) (p : Path) : Tree × Bool :=
+  if s == [] || endsDotDot s || p == [] || pathExists t p || !isDir t (parent p) then (t, false)
+  else (put t p .dir, true)
+
+/-- `rmdir` of a path whose last component is `..` fails (`ENOTEMPTY`) -/
+def dirRemoveAt (t : Tree) (s : Str) (p : Path) : Tree × Bool :=
+  if s != [] && !endsDotDot s && p != [] && isDir t p && (children t p).isEmpty then (erase t p, true)
+  else (t, false)
+
+/-- `remove_dir_all(s)` first removes everything below the directory `s` names, then calls `rmdir(s)` — and
+`s` is resolved again, in the tree as it is by then:
+* if `s` went (with `..`) through a directory that has just been removed, that `rmdir` is `ENOENT`, which
+  `remove_dir_all` takes as done: success, and the directory named stays, empty
+  (`remove_dir_all("d/..")`, `remove_dir_all("d/e/../../d")`);
+* `rmdir` of the root fails (`remove_dir_all(".")` empties the sandbox root and then fails), and so does
+  `rmdir` of a path whose last component is `..` (this arises only for `..` taken at the root);
+* otherwise the directory, now empty, is removed. -/
+def dirRemoveAllAt (t : Tree) (s : Str) (p : Path) : Tree × Bool :=
+  if s == [] || !isDir t p then (t, false) else
+  match resolve (eraseBelow t p) s with
+  | none => (eraseBelow t p, true)
+  | some _ => if p == [] || endsDotDot s then (eraseBelow t p, false) else (eraseUnder t p, true)
+
+def dirReadAt (t : Tree) (s : Str) (p : Path) : Option (List Str) :=
+  if s == [] || !isDir t p then none else
+  let base : Str := if s.getLast? == some '/' then s else s ++ ['/']
+  some ((children t p).map fun q => base ++ (q.getLast?.getD []))
+
+/-! ## the operations on path strings -/
+
+/-- `PATH_EXISTS` etc. on the raw string: the empty string names nothing -/
+def existsS (t : Tree) (s : Str) : Bool :=
+  match resolve t s with | none => false | some p => existsAt t s p
+def isFileS (t : Tree) (s : Str) : Bool :=
+  match resolve t s with | none => false | some p => isFileAt t s p
+def isDirS (t : Tree) (s : Str) : Bool :=
+  match resolve t s with | none => false | some p => isDirAt t s p
+
+/-- `File::create_new` -/
+def fileCreate (t : Tree) (s : Str) : Tree × Bool :=
+  match resolve t s with | none => (t, false) | some p => fileCreateAt t s p
+
+/-- `remove_file` -/
+def fileRemove (t : Tree) (s : Str) : Tree × Bool :=
+  match resolve t s with | none => (t, false) | some p => fileRemoveAt t s p
+
+/-- `read_to_string` -/
+def fileRead (t : Tree) (s : Str) : Option Str :=
+  match resolve t s with | none => none | some p => fileReadAt t s p
+
+/-- `OpenOptions::append(true).open` + `write!` -/
+def fileAppend (t : Tree) (s : Str) (text : Str) : Tree × Bool :=
+  match resolve t s with | none => (t, false) | some p => fileAppendAt t s p text
+
+/-- `OpenOptions::write(true).truncate(true).open` + `write!` -/
+def fileOverwrite (t : Tree) (s : Str) (text : Str) : Tree × Bool :=
+  match resolve t s with | none => (t, false) | some p => fileOverwriteAt t s p text
+
 /-- `create_dir` -/
 def dirCreate (t : Tree) (s : Str) : Tree × Bool :=
-  let p := components s
-  if s == [] || p == [] || pathExists t p || !isDir t (parent p) then (t, false)
-  else (put t p .dir, true)
+  match resolve t s with | none => (t, false) | some p => dirCreateAt t s p
+
+/-- `remove_dir`: an existing, empty directory other than the root -/
+def dirRemove (t : Tree) (s : Str) : Tree × Bool :=
+  match resolve t s with | none => (t, false) | some p => dirRemoveAt t s p
+
+/-- `remove_dir_all`: an existing directory other than the root, with everything below it -/
+def dirRemoveAll (t : Tree) (s : Str) : Tree × Bool :=
+  match resolve t s with | none => (t, false) | some p => dirRemoveAllAt t s p
+
+/-- `read_dir(path)`: each entry as `path.join(name)` — the path string as written, `..` included;
+`none` when the path is not a directory -/
+def dirRead (t : Tree) (s : Str) : Option (List Str) :=
+  match resolve t s with | none => none | some p => dirReadAt t s p
+
+/-! ## `create_dir_all`
+
+`create_dir_all` does not go through `resolve`: it makes the directories it misses, so that a `..`
+after a missing name is taken from the directory just made (`create_dir_all("new/../x")` makes `new`
+and `x`). (src: `DirBuilder::create_dir_all` calls `mkdir` on the ancestors of the path string, longest
+first, until one succeeds or exists as a directory, then on the remaining ones, shortest first; an
+ancestor ending in `..` is `EEXIST` and a directory by then. The outcome is that of the walk below.) -/
 
 /-- prefixes of a path, shortest first, excluding the empty one -/
 def prefixes : Path → List Path
   | [] => []
   | c :: cs => [c] :: (prefixes cs).map (c :: ·)
 
-/-- `create_dir_all`: fails (creating nothing) when a component is a file -/
+/-- `mkdir` unless something is there -/
+def mkdirStep (acc : Tree) (q : Path) : Tree := if pathExists acc q then acc else put acc q .dir
+
+/-- the directories `create_dir_all` wants to see, in order, standing at `cur`: a normal component
+names the next one, `..` steps back to the parent (which exists by then). For components without
+`..` these are the `prefixes`. -/
+def mkdirVisits : Path → List Str → List Path
+  | _, [] => []
+  | cur, c :: cs =>
+    if c == dotdot then mkdirVisits (parent cur) cs else (cur ++ [c]) :: mkdirVisits (cur ++ [c]) cs
+
+/-- `create_dir_all`: fails when a directory it wants to see is a file. Without `..` nothing has been
+made by then; with `..` the directories visited before the file have been
+(`create_dir_all("new/../file/x")` makes `new`, then fails).
+(The ancestors of the file are left out of what is made before the failure: they exist in every tree
+in which the ancestors of an entry exist, and leaving them out makes the function what it was for
+`..`-free strings on every association list.) -/
 def dirCreateAll (t : Tree) (s : Str) : Tree × Bool :=
-  let p := components s
-  if (prefixes p).any (fun q => isFile t q) then (t, false)
-  else ((prefixes p).foldl (fun acc q => if pathExists acc q then acc else put acc q .dir) t, true)
-
-/-- `remove_dir`: an existing, empty directory other than the root -/
-def dirRemove (t : Tree) (s : Str) : Tree × Bool :=
-  let p := components s
-  if s != [] && p != [] && isDir t p && (children t p).isEmpty then (erase t p, true) else (t, false)
-
-/-- `remove_dir_all`: an existing directory other than the root, with everything below it -/
-def dirRemoveAll (t : Tree) (s : Str) : Tree × Bool :=
-  let p := components s
-  if s != [] && p != [] && isDir t p then (eraseUnder t p, true)
-  -- `remove_dir_all(".")` empties the sandbox root and then fails to remove the root itself
-  else if s != [] && p == [] then ([], false)
-  else (t, false)
-
-/-- `read_dir(path)`: each entry as `path.join(name)`; `none` when the path is not a directory -/
-def dirRead (t : Tree) (s : Str) : Option (List Str) :=
-  let p := components s
-  if s == [] || !isDir t p then none else
-  let base : Str := if s.getLast? == some '/' then s else s ++ ['/']
-  some ((children t p).map fun q => base ++ (q.getLast?.getD []))
+  let vs := mkdirVisits [] (components s)
+  match vs.find? (fun q => isFile t q) with
+  | none => (vs.foldl mkdirStep t, true)
+  | some f =>
+    (((vs.takeWhile fun q => !isFile t q).filter fun q => !(q.isPrefixOf f)).foldl mkdirStep t, false)
 
 end Aplang.Fs
